@@ -1708,6 +1708,12 @@ func (e *Extractor) Document() (*model.Document, []Warning, error) {
 			}
 		}
 
+		// Headings and lists are detected from the same lines as the paragraphs, so
+		// their text is present as paragraphs too. Keep every piece of text once and
+		// in reading order: a paragraph that is a heading or part of a list is
+		// replaced by that heading or list.
+		ordered, paragraphs := mergePageElements(paragraphs, headings, lists)
+
 		// Create layout info
 		modelPage.Layout = &model.PageLayout{
 			Paragraphs: paragraphs,
@@ -1722,31 +1728,100 @@ func (e *Extractor) Document() (*model.Document, []Warning, error) {
 		}
 
 		// Add elements to page
-		for _, h := range headings {
-			modelPage.AddElement(&model.Heading{
-				Level: h.Level,
-				Text:  h.Text,
-				BBox:  h.BBox,
-			})
-		}
-		for _, p := range paragraphs {
-			modelPage.AddElement(&model.Paragraph{
-				Text: p.Text,
-				BBox: p.BBox,
-			})
-		}
-		for _, l := range lists {
-			modelPage.AddElement(&model.List{
-				Items:   l.Items,
-				Ordered: l.Type == model.ListTypeNumbered || l.Type == model.ListTypeLettered || l.Type == model.ListTypeRoman,
-				BBox:    l.BBox,
-			})
+		for _, el := range ordered {
+			modelPage.AddElement(el)
 		}
 
 		doc.AddPage(modelPage)
 	}
 
 	return doc, e.warnings, nil
+}
+
+// mergePageElements merges the paragraphs, headings and lists detected on a
+// page into one element sequence in the reading order of the paragraphs. A
+// paragraph whose text is that of a heading, or part of a list, lying at the
+// same height is represented by the heading or list (emitted once, where its
+// first paragraph stands). It returns the elements and the remaining plain
+// paragraphs.
+func mergePageElements(paragraphs []model.ParagraphInfo, headings []model.HeadingInfo, lists []model.ListInfo) ([]model.Element, []model.ParagraphInfo) {
+	squash := func(s string) string {
+		return strings.Join(strings.Fields(s), "")
+	}
+	// Only the vertical position is compared (together with the text): the
+	// horizontal extent of a paragraph built from reading-order lines is not
+	// reliable.
+	inside := func(p, b model.BBox) bool {
+		cy := p.Y + p.Height/2
+		const tol = 1.0
+		return cy >= b.Y-tol && cy <= b.Y+b.Height+tol
+	}
+	listText := make([]string, len(lists))
+	for i, l := range lists {
+		var sb strings.Builder
+		for _, item := range l.Items {
+			sb.WriteString(squash(item.Bullet))
+			sb.WriteString(squash(item.Text))
+		}
+		listText[i] = sb.String()
+	}
+	headingDone := make([]bool, len(headings))
+	listDone := make([]bool, len(lists))
+	heading := func(h model.HeadingInfo) model.Element {
+		return &model.Heading{Level: h.Level, Text: h.Text, BBox: h.BBox}
+	}
+	list := func(l model.ListInfo) model.Element {
+		return &model.List{
+			Items:   l.Items,
+			Ordered: l.Type == model.ListTypeNumbered || l.Type == model.ListTypeLettered || l.Type == model.ListTypeRoman,
+			BBox:    l.BBox,
+		}
+	}
+
+	var elements []model.Element
+	var plain []model.ParagraphInfo
+	for _, p := range paragraphs {
+		text := squash(p.Text)
+		claimed := false
+		for i, h := range headings {
+			if text != "" && inside(p.BBox, h.BBox) && strings.Contains(squash(h.Text), text) {
+				if !headingDone[i] {
+					headingDone[i] = true
+					elements = append(elements, heading(h))
+				}
+				claimed = true
+				break
+			}
+		}
+		for i, l := range lists {
+			if claimed {
+				break
+			}
+			if text != "" && inside(p.BBox, l.BBox) && strings.Contains(listText[i], text) {
+				if !listDone[i] {
+					listDone[i] = true
+					elements = append(elements, list(l))
+				}
+				claimed = true
+			}
+		}
+		if !claimed {
+			plain = append(plain, p)
+			elements = append(elements, &model.Paragraph{Text: p.Text, BBox: p.BBox})
+		}
+	}
+	// Headings and lists that matched no paragraph are kept
+	for i, h := range headings {
+		if !headingDone[i] {
+			elements = append(elements, heading(h))
+		}
+	}
+	for i, l := range lists {
+		if !listDone[i] {
+			elements = append(elements, list(l))
+		}
+	}
+	return elements, plain
 }
 
 // Chunks extracts content and returns semantic chunks for RAG workflows.
